@@ -794,3 +794,13 @@ func Reachable(roots []*ssa.Function, resolve func(ssa.CallInstruction) []*ssa.F
 	}
 	return seen
 }
+
+// Ret returns the operands of a return with defer-spilled results resolved: in functions that use
+// defer, go/ssa stores the results into cells, runs the defers and reloads them.
+func Ret(ret *ssa.Return) []ssa.Value {
+	out := make([]ssa.Value, len(ret.Results))
+	for i, r := range ret.Results {
+		out[i] = ResolveLoad(r)
+	}
+	return out
+}
